@@ -3,6 +3,7 @@
 From Coq Require Import ZArith List Bool Lia.
 Import ListNotations.
 From XO Require Import Slots Strides BufOps Types Format Check LayoutProofs RoundTrip.
+From XO Require CopyBytes DecLocal.
 Open Scope Z_scope.
 
 (* a view is rebuilt from (buffer, offset) only: the decoder is a function of the bytes, so any
@@ -31,8 +32,29 @@ Theorem C06_checker_sound : forall c, layout_ok c = None ->
     cells_match img (lc_bytes c) = true /\
     exists v, dec (lc_ty c) (lc_bytes c) 0 = Some (v, lc_size c) /\ val_eqb v (lc_val c) = true.
 Proof. exact layout_ok_sound. Qed.
+(* what is read through ANY handle or view of an object depends on the bytes of the object's own extent only:
+   two buffers (or one buffer at two times) that agree on [off, off+size) give the same value -- whatever else
+   was written, freed, re-used or appended elsewhere *)
+Theorem C06_value_depends_on_own_extent_only : forall t v img m m' off, has_refs t = false ->
+  enc t v = Some img -> len img < 2^62 -> sits img m off ->
+  len m <= len m' -> CopyBytes.agree_on m m' off (len img) ->
+  dec t m' off = Some (v, len img).
+Proof. exact CopyBytes.copy_reads_its_own_bytes. Qed.
+(* ANY ACCEPTED BYTES: whatever the strict decoder accepts as an object of a reference-free type (a fresh image,
+   or the bytes left by any history of assignments, slack included), the value and the size it returns are a
+   function of the bytes of [off, off+size) alone; the size is never negative and a statically sized type always
+   reports its class size *)
+Theorem C06_decoder_reads_own_extent_only : forall t m off v s m', has_refs t = false -> dec t m off = Some (v, s) ->
+  len m <= len m' -> CopyBytes.agree_on m m' off s -> dec t m' off = Some (v, s).
+Proof. exact DecLocal.dec_local. Qed.
+Theorem C06_decoded_size : forall t m off v s, has_refs t = false -> dec t m off = Some (v, s) ->
+  0 <= s /\ forall cs, csize t = Some cs -> s = cs.
+Proof. exact DecLocal.dec_size. Qed.
 Print Assumptions C06_view_from_bytes_scalar.
 Print Assumptions C06_view_from_bytes_string.
 Print Assumptions C06_strides_address.
 Print Assumptions C06_checker_sound.
 Print Assumptions C06_view_from_bytes.
+Print Assumptions C06_value_depends_on_own_extent_only.
+Print Assumptions C06_decoder_reads_own_extent_only.
+Print Assumptions C06_decoded_size.
